@@ -59,7 +59,29 @@ def dupSlice : Op R → Bool
       A.dupSlice || !((Ix.resolve A.rows s0).getD []).Nodup || !((Ix.resolve A.cols s1).getD []).Nodup
   | _ => false
 
-def clauses (A : Op R) : List String :=
-  (if A.dupSlice then ["sliced-repeated-index"] else [])
+/-- some `Product` node multiplies exactly one annotated non-scalar member by `ScalarMul`
+members: the inference passes the member's annotations through whatever the scalar is -/
+def scalarTimesAnn [DecidableEq R] : Op R → Bool
+  | prod Ms =>
+      (Ms.map (·.scalarTimesAnn)).any id ||
+        ((Ms.map (fun M => (isScalarMul M, !M.anns.isEmpty))).any (·.1) &&
+          (match (Ms.map (fun M => (isScalarMul M, !M.anns.isEmpty))).filter (fun p => !p.1) with
+           | [p] => p.2
+           | _ => false))
+  | sum Ms => (Ms.map (·.scalarTimesAnn)).any id
+  | kron Ms => (Ms.map (·.scalarTimesAnn)).any id
+  | kronsum Ms => (Ms.map (·.scalarTimesAnn)).any id
+  | bdiag Ms _ => (Ms.map (·.scalarTimesAnn)).any id
+  | concat _ Ms => (Ms.map (·.scalarTimesAnn)).any id
+  | transpose A => A.scalarTimesAnn
+  | adjoint A => A.scalarTimesAnn
+  | sliced A _ _ => A.scalarTimesAnn
+  | generic A => A.scalarTimesAnn
+  | annot _ A => A.scalarTimesAnn
+  | _ => false
+
+def clauses [DecidableEq R] (A : Op R) : List String :=
+  (if A.dupSlice then ["sliced-repeated-index"] else []) ++
+  (if A.scalarTimesAnn then ["scalar-times-annotated"] else [])
 
 end Op
